@@ -223,6 +223,14 @@ def run(report, tier, seed):
             dtype = rng.choice([numpy.int64, numpy.float64])
             raw = rng.random() < 0.4
             p = gen.rand_poly(rng, shape, names, nterms=nterms, maxexp=3, dtype=dtype, raw=raw)
+            bigvals = False
+            if dtype is numpy.float64 and rng.random() < 0.25:
+                bigvals = True
+                # whole-valued floats beyond the int64 range (each is exactly representable): they must come
+                # back as the same numbers, whatever the reader does with "integer looking" columns
+                big = rng.choice([2.0 ** 63, 1e19, 6.02214076e23, 2.0 ** 70])
+                with numpoly.global_options(retain_coefficients=True, retain_names=True):
+                    p = numpoly.polynomial_from_attributes(p.exponents, [c * big for c in p.coefficients], p.names)
             g_rc, g_rn = rng.choice([(False, True), (False, True), (True, True), (False, False), (True, False)])
             lay = layout(p)
             tp = core.coq_parr(lay)
@@ -303,7 +311,7 @@ def run(report, tier, seed):
                     save = rng.choice([numpoly.savetxt, numpoly.savetxt, numpy.savetxt])
                     sk, lk = {}, {}
                     r = rng.random()
-                    if r < 0.35:
+                    if r < 0.35 and not bigvals:      # big whole floats: full-precision default format only
                         sk["fmt"] = rng.choice(["%d", "%g", "%.3f", "%10.5f", "%+.6e", "%i"])
                         if sk["fmt"] in ("%d", "%i") and rng.random() < 0.5:
                             lk["dtype"] = int
